@@ -232,6 +232,11 @@ def _wire(chk):
     reach = [t.fn.qualname for c in FuncFacts.of(fa).calls() for t in ctx.resolve_call(c) if t.fn is not None]
     chk.check("xeofs.single.eof.EOF._fit_algorithm" in reach, "WIRE.hilbert.fit", fa, None,
               construct="HilbertEOF._fit_algorithm -> EOF._fit_algorithm", why="HilbertEOF no longer fits through EOF._fit_algorithm")
+    _extended(chk)
+
+
+def _extended(chk):
+    pm = chk.pm
     # ExtendedEOF: inner EOF on the embedded matrix; its container becomes the model's
     e = pm.own_method("xeofs.single.eeof.ExtendedEOF", "_fit_algorithm")
     ef = FuncFacts.of(e)
